@@ -2,13 +2,42 @@
   Driver handlers of the typed codec over the regenerated schema:
     plan.enc <dyn id> <tag> <val>     →  ok <hex of the binary TTLV> | err | panic <msg>     (tag 0 = the type's default tag)
     plan.dec <dyn id> <tag> <hex>     →  ok <val> | err | panic <msg>
+    plan.conforms <dyn id> <tag> <val> →  ok 1 | ok 0 wf=<b> inrange=<b>   (the hypothesis `Conforms` of the C01 theorems,
+                                          evaluated: `normTop … isSome` and `Item.AllInRange` of the encoder's items)
 -/
 import Driver.Common
 import KmipModel.Model.ValSyntax
 import KmipModel.Gen.Schema
+import KmipModel.Lemmas.PlanRoundtrip
 open Kmip
 
 namespace Driver
+
+mutual
+  /-- executable `Item.InRange` (big integers included: the driver is compiled, not kernel-evaluated). -/
+  def itemInRangeX : Item → Bool
+    | .struct tag cs => decide (0 < tag) && decide (tag < 2 ^ 24) && decide ((encList cs).length < 2 ^ 32)
+        && allInRangeX cs
+    | .int tag v => decide (0 < tag) && decide (tag < 2 ^ 24) && decide (inInt 32 v)
+    | .long tag v => decide (0 < tag) && decide (tag < 2 ^ 24) && decide (inInt 64 v)
+    | .big tag v => decide (0 < tag) && decide (tag < 2 ^ 24) && decide ((encodeBig v).length < 2 ^ 32)
+    | .enum tag v => decide (0 < tag) && decide (tag < 2 ^ 24) && decide (v < 2 ^ 32)
+    | .bool tag _ => decide (0 < tag) && decide (tag < 2 ^ 24)
+    | .text tag s => decide (0 < tag) && decide (tag < 2 ^ 24) && decide (s.length < 2 ^ 32)
+    | .bytes tag s => decide (0 < tag) && decide (tag < 2 ^ 24) && decide (s.length < 2 ^ 32)
+    | .date tag v => decide (0 < tag) && decide (tag < 2 ^ 24) && decide (inInt 64 v)
+    | .interval tag v => decide (0 < tag) && decide (tag < 2 ^ 24) && decide (v < 2 ^ 32)
+  def allInRangeX : List Item → Bool
+    | [] => true
+    | x :: xs => itemInRangeX x && allInRangeX xs
+end
+
+/-- the two clauses of `Conforms S d tag v`, evaluated. -/
+def conformsX (S : Schema) (d tag : Nat) (v : Val) : Bool × Bool :=
+  ((normTop S d tag v).isSome,
+   match encK S marshalFuel (S.dyn d).kind (topTag S d tag) v none with
+   | .ok (items, _) => allInRangeX items
+   | _ => false)
 
 def handlePlan (cmd arg : String) : Option String :=
   match cmd with
@@ -17,6 +46,15 @@ def handlePlan (cmd arg : String) : Option String :=
     | d :: t :: _ =>
       match d.toNat?, t.toNat?, parseValStr ((arg.drop (d.length + t.length + 2)).toString) with
       | some dn, some tg, some v => renderRes (do let bs ← marshal Gen.schema dn tg v; pure (hexOfBytes bs))
+      | _, _, _ => "bad-op"
+    | _ => "bad-op"
+  | "plan.conforms" => some <|
+    match arg.splitOn " " with
+    | d :: t :: _ =>
+      match d.toNat?, t.toNat?, parseValStr ((arg.drop (d.length + t.length + 2)).toString) with
+      | some dn, some tg, some v =>
+        let (wf, ir) := conformsX Gen.schema dn tg v
+        if wf && ir then "ok 1" else s!"ok 0 wf={wf} inrange={ir}"
       | _, _, _ => "bad-op"
     | _ => "bad-op"
   | "plan.dec" => some <|
